@@ -137,7 +137,9 @@ End(e) ==
      \* nothing a task owned (captured by its closure or living on its stack) survives the teardown of a
      \* non-failing execution, whether its tasks finished, were cut off, or never started
      \* (the one deviation the code has: an execution abandoned while a task is unwinding from a panic, see `leak`)
-     /\ (e.v \in {"ok", "stopped"} /\ "toklive" \in DOMAIN e) => (e.toklive = 0 \/ \E t \in Live(s1) : PanicKind(s1, t) # "")
+     \* (... and, as a consequence, every later execution of the same run on that OS thread: `degraded`)
+     /\ (e.v \in {"ok", "stopped"} /\ "toklive" \in DOMAIN e) =>
+           (e.toklive = 0 \/ (\E t \in Live(s1) : PanicKind(s1, t) # "") \/ "degraded" \in DOMAIN e)
      /\ CASE e.v = "ok" -> \/ (~BoundHit(s1) /\ Ends(s1) /\ Attached(s1) = {})
                             \* abandoned silently by a continue-after bound (or: finished exactly on the bound)
                             \/ (BoundHit(s1) /\ (~BoundFails(s1) \/ (Ends(s1) /\ Attached(s1) = {})))
